@@ -135,7 +135,7 @@ inductive EncKind where
   | reserved
   | float
   | lookup (enum : String)
-  | date
+  | date (bits : Nat)
   | time (res : Lit) (bits : Nat) (signed : Bool)
   | unsupported (ftype : String)     -- `raise Exception("Encoding '…' not supported")`
   | unrecognised (src : String)
